@@ -50,7 +50,7 @@ class Lock:
 # --------------------------------------------------------------------------- build
 def v_files():
     out = []
-    for d in ('Model', 'Proofs', 'Props', 'Tie', 'Gen'):
+    for d in ('Model', 'Proofs', 'Props', 'Tie', 'Gen', 'Findings'):
         out += sorted(glob.glob(os.path.join(COQ, d, '*.v')))
     return [os.path.relpath(f, COQ) for f in out]
 
